@@ -19,8 +19,8 @@ def impl_obs(case):
     try:
         est = st.fit_case(case)
     except Exception as e:      # noqa
-        if 'binning' in json.dumps(case['spec']):
-            return {'skip': 'fit error after a data-dependent width (binning): widths unknown to the generator'}, None
+        if 'binning' in json.dumps(case['spec']) or 'nystroem' in json.dumps(case['spec']):
+            return {'skip': 'fit error after a data-dependent width (binning, Nystroem): widths unknown to the generator'}, None
         if 'Bounds are not consistent' in str(e):
             return {'skip': 'QmcCenters on a constant column (out of domain)'}, None
         return {'err': st.err_enum(e)}, None
